@@ -16,6 +16,8 @@ import tempfile
 import time
 
 ROOT = os.path.dirname(os.path.dirname(os.path.abspath(__file__)))
+# evidence of a run against a worktree (VERIF_REPO, used by bin/seedtest) never overwrites the evidence of /repo
+EVID = os.path.join(ROOT, "evidence", "_worktree") if os.environ.get("VERIF_REPO") else os.path.join(ROOT, "evidence")
 PY = os.path.join(ROOT, ".venv", "bin", "python")
 MAX_BLOCK_ROUNDS = 12
 
@@ -136,7 +138,7 @@ def run_property(prop, tier, seed=0, only=None, jobs=None, verbose=True):
         records = {q["id"]: {"id": q["id"], "sel": q["sel"], "fn": q["fn"], "rounds": [], "final": None, "twin": None, "known": [], "spurious": []} for q in queries}
         violations = []
         known_printed = set()
-        replay_dir = os.path.join(ROOT, "evidence", "replays", prop)
+        replay_dir = os.path.join(EVID, "replays", prop)
 
         def finish_main(job, res):
             rec = records[job.q["id"]]
@@ -303,8 +305,8 @@ def run_property(prop, tier, seed=0, only=None, jobs=None, verbose=True):
             "wall_s": round(time.time() - t_start, 2),
             "violations": len(violations),
         }
-        os.makedirs(os.path.join(ROOT, "evidence"), exist_ok=True)
-        with open(os.path.join(ROOT, "evidence", prop + ".json"), "w") as f:
+        os.makedirs(EVID, exist_ok=True)
+        with open(os.path.join(EVID, prop + ".json"), "w") as f:
             json.dump(ev, f, indent=1, default=repr)
         print("%s %s: queries=%d confirmed=%d known=%d new=%d inconclusive=%d errors=%d paths=%d smt=%d solver=%.1fs wall=%.1fs" % (prop, tier, total, confirmed, known_hits, viol, inconclusive, len(harness_errors), paths, smt, solver_s, time.time() - t_start), flush=True)
         if violations:
